@@ -42,6 +42,11 @@ func (a Any) completeIndexExprAtPos(ctx context.Context, pos hcl.Pos) []lang.Can
 	// If there is a prefix or valid expression within the index step,
 	// we're dealing with an index expression and can defer completion for the key.
 	case *hclsyntax.IndexExpr:
+		keyRng := eType.Key.Range()
+		if !keyRng.ContainsPos(pos) && keyRng.End.Byte != pos.Byte {
+			// the position is within the collection, not within the key
+			return candidates
+		}
 		return newExpression(a.pathCtx, eType.Key, cons).CompletionAtPos(ctx, pos)
 	}
 
